@@ -883,3 +883,35 @@ pub fn deep_nests(nm: &Names, max: usize) -> Vec<F> {
     }
     out
 }
+
+/// "Shared operand" family: a sub-formula B inside one operand of a Boolean connective and again next to
+/// it - (A & B) | B, (A | B) & B, (A & B) | ~B, B | (A & B), (A => B) & (B | A) - for A, B over a pool of
+/// small closed formulae (per-colour emptiness of A decides what a lazy evaluation of B may skip).
+pub fn shared_operand_family(nm: &Names) -> Vec<F> {
+    let p0 = nm.props[0].clone();
+    let pool: Vec<String> = vec![
+        p0.clone(),
+        format!("~ {p0}"),
+        format!("EX {p0}"),
+        format!("AX {p0}"),
+        format!("EF {p0}"),
+        format!("AG {p0}"),
+        format!("AF {p0}"),
+        format!("EG (~ {p0})"),
+        "3{x}: @{x}: AX {x}".to_string(),
+        "!{x}: AX {x}".to_string(),
+        "!{x}: AG EF {x}".to_string(),
+    ];
+    let mut out = vec![];
+    for a in &pool {
+        for b in &pool {
+            if a == b {
+                continue;
+            }
+            for t in ["((A) & (B)) | (B)", "((A) | (B)) & (B)", "((A) & (B)) | ~ (B)", "(B) | ((A) & (B))", "((A) => (B)) & ((B) | (A))", "((A) & (EX (B))) | (EX (B))"] {
+                out.push(f(&t.replace('A', a).replace('B', b), nm));
+            }
+        }
+    }
+    out
+}
